@@ -169,7 +169,13 @@ func (c *Concretiser) Bytes(m M) []byte {
 		}
 		return pgw.Startup(pgw.Version30, kvs, B(m, "term"))
 	case "SSLRequest":
+		if B(m, "stuffed") {
+			// plaintext pushed in the same segment, ahead of the TLS handshake
+			return append(pgw.SSLRequest(), c.stuffing()...)
+		}
 		return pgw.SSLRequest()
+	case "Stuffed":
+		return c.stuffing()
 	case "Cancel":
 		return pgw.Cancel(c.Rng.Uint32(), c.Rng.Uint32())
 	case "p":
@@ -434,4 +440,13 @@ func (c *Concretiser) retype(st M) {
 		}
 	}
 	delete(st, "anytype")
+}
+
+// stuffing is plaintext protocol traffic a man in the middle might push ahead
+// of the TLS handshake: a startup packet and a query that would run a script.
+func (c *Concretiser) stuffing() []byte {
+	c.X.scripts["q9999"] = M{"id": 9999, "parse": "ok", "stmts": []any{M{"id": 9999, "cols": []any{}, "oids": []any{},
+		"prog": []any{M{"op": "complete", "tag": "INJECTED"}, M{"op": "ret", "r": "nil"}}}}}
+	b := pgw.Startup(pgw.Version30, [][2]string{{"user", "mallory"}}, true)
+	return append(b, pgw.Query("q9999")...)
 }
